@@ -93,6 +93,15 @@ def extra_shapes(n):
     S.append(("v-neg-if", ["neg", ["if", ["ult", x, c0], x, y]]))
     S.append(("v-sub-x-if", ["sub", x, ["if", ["ule", y, c0], y, c1]]))
     S.append(("v-and-if-c", ["and", ["if", ["ule", x, c0], x, y], c1]))
+    # n-ary conjunctions / disjunctions (the simplifier flattens nested binary ones into one node): a decided prefix, an undecided tail
+    c2 = L(0, n)
+    S.append(("v-and3-true-true-maybe", ["And", ["uge", x, c2], ["ule", y, L((1 << n) - 1, n)], ["ule", z, c0]]))
+    S.append(("v-and3", ["And", ["ule", x, c0], ["uge", y, c2], ["ult", z, c1]]))
+    S.append(("v-or3-false-false-maybe", ["Or", ["ult", x, c2], ["ugt", y, L((1 << n) - 1, n)], ["ule", z, c0]]))
+    S.append(("v-or3", ["Or", ["ule", x, c0], ["ult", y, c2], ["uge", z, c1]]))
+    S.append(("v-if-and3", ["if", ["And", ["uge", x, c2], ["ule", y, L((1 << n) - 1, n)], ["ule", z, c0]], x, c1]))
+    S.append(("v-not-and3", ["Not", ["And", ["uge", x, c2], ["uge", y, c2], ["ule", z, c0]]]))
+    S.append(("v-if-or3", ["if", ["Or", ["ult", x, c2], ["ult", y, c2], ["ule", z, c0]], y, c1]))
     if n >= 2:
         S.append(("v-concat-if", ["concat", ["if", ["ult", x, c0], x, c1], y]))
         S.append(("v-extract-if", ["extract", n - 1, 1, ["if", ["ult", x, c0], x, y]]))
